@@ -184,6 +184,7 @@ Fixpoint tab_loop (fuel : nat) (b : wblock) (t : tag) (pos : N) (one : bool) : r
     match fuel with
     | O => OutOfFuel
     | S f =>
+      if wwidth b =? 0 then Ok b else
       if wwidth b <=? pos
       then do b1 <- flush_line b; tab_loop f b1 t 0 one
       else tab_loop f (set_line b (tl_push_char (wline b) (spacel L_space) t)) t (pos + 1) true
